@@ -4,7 +4,7 @@ import re
 from ..pe import Clos, Evaluator, ListV, SymObj, Tag, Toks, explore, show_toks, vkey
 from ..quote import parse_template, show
 from ..skeleton import fn_of_impl, impl_table
-from ..src import Inconclusive, calls, method_calls, render, walk, walk_with_parents
+from ..src import render_stmt, Inconclusive, calls, method_calls, render, walk, walk_with_parents
 from ..tables import ATTR, EXPAND, IMPL_FILES, direction, kinds
 
 LEVEL = "other"
@@ -159,10 +159,11 @@ def r3(chk):
                 upd.append((i, s_, m, tpl))
     chk.expect("R3", "update/once", len(upd) == 1, EXPAND, fi.line, "the update fragment must be produced at exactly one place", found=[u[2]["line"] for u in upd])
     for i, s_, m, tpl in upd:
-        qa = [c_ for c_ in calls(s_, "quote_action")]
+        qa = [c_ for c_ in calls(s_, "quote_action")] + [m_ for m_ in method_calls(s_, "quote_action")]
         cond = render(s_["expr"]["cond"]) if s_["k"] == "ExprStmt" and s_["expr"]["k"] == "If" else ""
         ok = len(tpl) == 3 and tpl[2]["t"] == "hole" and len(qa) == 1 and ".update" in cond
-        chk.expect("R3", "update/fragment", ok, EXPAND, m["line"], "update fragment is not `..<substituted update expr>`", found=show(tpl))
+        raw = len(tpl) == 3 and tpl[2]["t"] == "hole" and not qa and re.search(r"\bupdate\b", render_stmt(s_)) is not None and "replace_tilde" not in render_stmt(s_)
+        chk.shape("R3", "update/fragment", ok, raw, EXPAND, m["line"], what="update fragment is not `..<substituted update expr>`", found=show(tpl))
         okp = None not in (idx_loop, idx_ghost) and idx_loop < idx_ghost < i
         chk.expect("R3", "update/position", okp, EXPAND, m["line"], "`..update` must come after member lines and ghost lines", expected="loop < ghosts < update", found=[idx_loop, idx_ghost, i])
 
